@@ -114,6 +114,33 @@ func instrDesc(p *Prog, in ssa.Instruction) string {
 	return fmt.Sprintf("%T", in)
 }
 
+// plainMapPut: the type's Put is exactly `recv.F[key] = value` on a map field F (one path, one effect).
+func plainMapPut(c *Ctx, ct *types.Named) (field int, ok bool) {
+	put := methodsOf(c.p, ct)["Put"]
+	if put == nil || len(put.Params) != 3 {
+		return 0, false
+	}
+	gc := c.GC(put)
+	if gc.Undecided != "" || len(gc.GCs) != 1 || len(gc.GCs[0].Effects) != 1 {
+		return 0, false
+	}
+	ef := gc.GCs[0].Effects[0]
+	if ef.Op != "mapset" || ef.Args[1].String() != "p:1" || ef.Args[2].String() != "p:2" {
+		return 0, false
+	}
+	m := ef.Args[0]
+	if !(m.Op == "load" && m.Args[0].Op == "fa" && m.Args[0].Args[0].String() == "p:0") {
+		return 0, false
+	}
+	st := ct.Underlying().(*types.Struct)
+	for i := 0; i < st.NumFields(); i++ {
+		if fieldN(ct, i) == m.Args[0].Leaf {
+			return i, true
+		}
+	}
+	return 0, false
+}
+
 // ruleR8 — LOADER.
 func ruleR8(c *Ctx) *RuleResult {
 	p, e := c.p, c.E()
@@ -218,6 +245,22 @@ func ruleR8(c *Ctx) *RuleResult {
 					if cal != nil && onRecv && recvNamed(cal) == ct.Origin() && token.IsExported(cal.Name()) && insertionNames[cal.Name()] {
 						inserts = append(inserts, in)
 						continue
+					}
+				}
+				// a container whose Put is nothing but recv.F[key] = value (decided from Put's own normal form) may be filled by
+				// maps.Copy(recv.F, decoded) or by assigning into recv.F directly: the same map operation per entry
+				if f, okp := plainMapPut(c, ct); okp {
+					if isCall && stdCalleeName(p, &call.Call) == "maps.Copy" && len(call.Call.Args) == 2 {
+						if ff, okf := recvField(fn, call.Call.Args[0]); okf && ff == f && derivedFromDecodeTarget(call.Call.Args[1], j.decodes) {
+							inserts = append(inserts, in)
+							continue
+						}
+					}
+					if mu, isMU := in.(*ssa.MapUpdate); isMU {
+						if ff, okf := recvField(fn, mu.Map); okf && ff == f {
+							inserts = append(inserts, in)
+							continue
+						}
 					}
 				}
 				// whole-state assignment idiom: single-field struct, stored value is the decoded temporary
@@ -693,27 +736,42 @@ func ruleR9(c *Ctx) *RuleResult {
 		r.add(Obligation{Key: "R9c:" + tk, Rule: "R9c", Clause: clC, Pos: p.FuncPos(to.fn), Status: stC, Facts: factsC})
 		// ---- R9f input taint
 		var badF []string
-		data := from.fn.Params[1]
-		for _, ref := range *data.Referrers() {
-			switch x := ref.(type) {
-			case *ssa.DebugRef:
-			case ssa.CallInstruction:
-				cc := x.Common()
-				name := stdCalleeName(p, cc)
-				if cal := StaticCallee(cc); cal != nil && p.IsLib(cal) && (cal.Name() == "FromJSON" || cal.Name() == "UnmarshalJSON") {
-					continue
+		var taint func(data ssa.Value, depth int)
+		taint = func(data ssa.Value, depth int) {
+			if data.Referrers() == nil {
+				return
+			}
+			for _, ref := range *data.Referrers() {
+				switch x := ref.(type) {
+				case *ssa.DebugRef:
+				case ssa.CallInstruction:
+					cc := x.Common()
+					name := stdCalleeName(p, cc)
+					if cal := StaticCallee(cc); cal != nil && p.IsLib(cal) && (cal.Name() == "FromJSON" || cal.Name() == "UnmarshalJSON") {
+						continue
+					}
+					if (name == "encoding/json.Unmarshal" || name == "encoding/json.Valid" || name == "bytes.NewReader") && len(cc.Args) > 0 && cc.Args[0] == data {
+						continue
+					}
+					// a library helper that receives the input: what it does with it counts as done here
+					if cal := StaticCallee(cc); cal != nil && p.IsLib(cal) && cal.Blocks != nil && depth < 4 {
+						for i, a := range cc.Args {
+							if a == data && i < len(cal.Params) {
+								taint(cal.Params[i], depth+1)
+							}
+						}
+						continue
+					}
+					if name == "" {
+						name = instrDesc(p, ref)
+					}
+					badF = append(badF, fmt.Sprintf("→%s|raw input handed to %s at %s", name, name, p.InstrPos(ref)))
+				default:
+					badF = append(badF, fmt.Sprintf("→%T|raw input used by %T at %s", ref, ref, p.InstrPos(ref)))
 				}
-				if (name == "encoding/json.Unmarshal" || name == "encoding/json.Valid" || name == "bytes.NewReader") && len(cc.Args) > 0 && cc.Args[0] == ssa.Value(data) {
-					continue
-				}
-				if name == "" {
-					name = instrDesc(p, ref)
-				}
-				badF = append(badF, fmt.Sprintf("→%s|raw input handed to %s at %s", name, name, p.InstrPos(ref)))
-			default:
-				badF = append(badF, fmt.Sprintf("→%T|raw input used by %T at %s", ref, ref, p.InstrPos(ref)))
 			}
 		}
+		taint(from.fn.Params[1], 0)
 		if len(badF) == 0 {
 			r.add(Obligation{Key: "R9f:" + ffk, Rule: "R9f", Clause: clF, Pos: p.FuncPos(from.fn), Status: Discharged, Facts: "data flows only to the JSON decoder / a forwarded FromJSON"})
 		} else {
@@ -898,8 +956,7 @@ func ruleR6(c *Ctx) *RuleResult {
 		return false
 	}
 	for _, f := range flds {
-		st := f.st.Underlying().(*types.Struct)
-		key := p.TypeKey(f.st) + "." + st.Field(f.idx).Name()
+		key := p.TypeKey(f.st) + "." + fieldN(f.st, f.idx)
 		var bad []string
 		nstores, nallocs := 0, 0
 		for _, fn := range p.Funcs {
@@ -992,7 +1049,7 @@ func ruleR6(c *Ctx) *RuleResult {
 			}
 		}
 		sort.Strings(bad)
-		pos := p.Pos(st.Field(f.idx).Pos())
+		pos := p.Pos(f.st.Underlying().(*types.Struct).Field(f.idx).Pos())
 		if len(bad) > 0 {
 			r.bad(key, clause, pos, strings.Join(bad, "\n"))
 		} else {
